@@ -1,5 +1,6 @@
 import HappyModel.Proto
 import HappyModel.C05.Spec
+import HappyModel.C05.Stateful
 /-! Line-protocol driver for C05 (other side: `hv/props/c05.py`). -/
 namespace HappyModel.C05.Driver
 open HappyModel.Proto HappyModel.C05
@@ -56,7 +57,8 @@ def crossSends (partOf : Nat → Nat) (prog : List (Nat × Nat × Emit)) (T : Na
     (prog.filter (fun x => x.1 == ev.tgt && x.2.1 == ev.kind && partOf x.2.2.tgt != partOf ev.tgt)).foldl
       (fun acc x => insertUniq (partOf ev.tgt, partOf x.2.2.tgt, x.2.2.delay) acc) acc) []
 
-def runModel (strict : Bool) (nparts : Nat) (window : Option Nat) (endT : Nat) (body : List String) :
+/-- the run of a stateless script program that starts at `start` (`start_time=`) -/
+def runModelFrom (start : Nat) (strict : Bool) (nparts : Nat) (window : Option Nat) (endT : Nat) (body : List String) :
     List String :=
   let cs := body.foldl (fun c l => parseLine c (toks l)) ({} : Case)
   let nEnt := cs.ents.length
@@ -70,7 +72,7 @@ def runModel (strict : Bool) (nparts : Nat) (window : Option Nat) (endT : Nat) (
   let evs : List Ev := cs.inits.zipIdx.map fun (x, i) => ⟨x.1, i, x.2.1, x.2.2⟩
   let fuel := 200000
   -- sequential copy
-  let sq := runSeq h endT fuel (Part.init 0 0 () evs)
+  let sq := runSeq h endT fuel (Part.init 0 start () evs)
   if !haltedB h seqRoute false endT sq then ["err Fuel"] else
   let ents := List.range nEnt
   let seqLines := ents.map fun e => s!"seq {e} {showObs (canon endT sq.log e)}".trimAscii.toString
@@ -80,13 +82,13 @@ def runModel (strict : Bool) (nparts : Nat) (window : Option Nat) (endT : Nat) (
       (crossSends cfg.part cs.prog endT sq.log).map fun x => s!"xs {x.1} {x.2.1} {x.2.2}"
   if !cfgV.valid window refs then rejected "ValueError" else
   let parts0 : List (Part Unit) := (List.range nparts).map fun i =>
-    Part.init i 0 () (evs.filter fun e => cfg.part e.tgt == i)
+    Part.init i start () (evs.filter fun e => cfg.part e.tgt == i)
   let minLat := (cs.links.map (·.lat)).foldl min ((cs.links.map (·.lat)).headD 0)
   let wEff := match window with
     | some w => wEffOf w
     | none => wEffOf minLat
   if !cs.links.isEmpty && wEff == 0 then ["err Stall"] else
-  let s := parallelRun h cfg strict fuel wEff endT 100000 parts0
+  let s := parallelRunFrom h cfg strict fuel wEff endT 100000 start parts0
   if cs.links.isEmpty && !s.parts.all (fun p => haltedB h seqRoute false endT p) then ["err Fuel"] else
   match s.err with
   | some .value => rejected "ValueError"
@@ -97,6 +99,10 @@ def runModel (strict : Bool) (nparts : Nat) (window : Option Nat) (endT : Nat) (
     let tt := (s.parts.map (·.tt.length)).sum
     (ents.map fun e => s!"par {e} {showObs (canon endT plog e)}".trimAscii.toString) ++ seqLines ++
       [s!"tt {tt}", s!"cross {s.outboxed} {s.injected}", s!"windows {s.windows}"]
+
+def runModel (strict : Bool) (nparts : Nat) (window : Option Nat) (endT : Nat) (body : List String) :
+    List String :=
+  runModelFrom 0 strict nparts window endT body
 
 def parseObsTok (s : String) : Option Obs :=
   match s.splitOn ":" with
